@@ -19,7 +19,8 @@ SPEC = {
                   "sent; initiator: main hostmap and all records unchanged, pending handshake dropped). C09_wrong_responder: when the "
                   "responder's certificate does not list the address the initiator was trying to reach, the main hostmap is unchanged, "
                   "nothing is logged as completed, the pending handshake is dropped and restarted with the sender's underlay address "
-                  "blocked, and the only packet sent is a close-tunnel to the host that answered.",
+                  "blocked, and the only packet sent is a close-tunnel to the host that answered. "
+                  "System level (component sysmon_C09): in seeded event histories of four real nodes built by nebula.Main (lighthouse, relay, v1/v2 certificates, wrong responders, simultaneous handshakes, reloads) every tunnel in every main hostmap records, after every event, exactly the addresses of a certificate of the node whose handshake message created it, and no node holds a tunnel keyed by one of its own addresses.",
     "level_note": "A 'completed handshake' on the responder side of Noise IX is a stage 1 that passed certificate verification; the "
                   "initiator has not yet proved possession of its key then (known finding F27, see C05/C10): a tunnel installed from a "
                   "replayed or altered stage 1 is still bound to the genuine certificate's addresses, which is what C09 states. "
@@ -34,7 +35,7 @@ SPEC = {
     "props": ["props/C09.v"],
     "corr": ["corr/HsMgr_corr.v"],
     "build_comp": "hsmgr",
-    "comps": [{"comp": "hsmgr09", "n_quick": 150, "n_thorough": 4000}],
+    "comps": [{"comp": "hsmgr09", "n_quick": 150, "n_thorough": 4000}, {"comp": "sysmon_C09", "e2e": True, "n_quick": 12, "n_thorough": 150}],
     "trusted": ["model/HsMgr.v is a hand-written mirror of handshake_manager.go (StartHandshake, handleOutbound first attempt and timeout, "
                 "beginHandshake, validatePeerCert, CheckAndComplete, handleCheckAndCompleteError, continueHandshake, Complete) and "
                 "hostmap.go SetRemoteIfPreferred, over model/HostMap.v (C28); tied by the correspondence",
